@@ -1,41 +1,57 @@
-use std::sync::{Arc, Mutex};
-#[derive(Debug, Clone)]
-struct Shared3(Arc<Mutex<Vec<u8>>>);
-impl redb3::StorageBackend for Shared3 {
-    fn len(&self) -> Result<u64, std::io::Error> { Ok(self.0.lock().unwrap().len() as u64) }
-    fn read(&self, offset: u64, out: &mut [u8]) -> Result<(), std::io::Error> { let g = self.0.lock().unwrap(); out.copy_from_slice(&g[offset as usize..offset as usize + out.len()]); Ok(()) }
-    fn set_len(&self, len: u64) -> Result<(), std::io::Error> { self.0.lock().unwrap().resize(len as usize, 0); Ok(()) }
-    fn sync_data(&self) -> Result<(), std::io::Error> { Ok(()) }
-    fn write(&self, offset: u64, data: &[u8]) -> Result<(), std::io::Error> { let mut g = self.0.lock().unwrap(); g[offset as usize..offset as usize + data.len()].copy_from_slice(data); Ok(()) }
-}
-impl redb::StorageBackend for Shared3 {
-    fn len(&self) -> Result<u64, std::io::Error> { Ok(self.0.lock().unwrap().len() as u64) }
-    fn read(&self, offset: u64, out: &mut [u8]) -> Result<(), std::io::Error> { let g = self.0.lock().unwrap(); out.copy_from_slice(&g[offset as usize..offset as usize + out.len()]); Ok(()) }
-    fn set_len(&self, len: u64) -> Result<(), std::io::Error> { self.0.lock().unwrap().resize(len as usize, 0); Ok(()) }
-    fn sync_data(&self) -> Result<(), std::io::Error> { Ok(()) }
-    fn write(&self, offset: u64, data: &[u8]) -> Result<(), std::io::Error> { let mut g = self.0.lock().unwrap(); g[offset as usize..offset as usize + data.len()].copy_from_slice(data); Ok(()) }
-}
+use redb::*;
+use std::sync::{Arc, Mutex, Condvar};
+use std::sync::atomic::{AtomicBool, Ordering};
+const T: TableDefinition<u64, &[u8]> = TableDefinition::new("x");
+thread_local! { static IS_READER: std::cell::Cell<bool> = const { std::cell::Cell::new(false) }; }
 fn main() {
-    for (n, del, reopen_twice) in [(0usize,false,false),(1,false,false),(1,false,true),(50,false,true),(300,false,true),(300,true,true),(2000,false,true),(2000,true,true)] {
-        let b = Shared3(Arc::new(Mutex::new(vec![])));
-        let db = redb::Database::builder().create_with_backend(b.clone()).unwrap();
-        let d: redb::TableDefinition<u64,&[u8]> = redb::TableDefinition::new("t0");
-        if n > 0 {
-            let w = db.begin_write().unwrap();
-            { let mut t = w.open_table(d).unwrap(); for i in 0..n as u64 { t.insert(i, vec![7u8; 1000].as_slice()).unwrap(); } }
-            w.commit().unwrap();
-            if del {
-                let w = db.begin_write().unwrap();
-                { let mut t = w.open_table(d).unwrap(); t.retain(|_,_| false).unwrap(); }
-                w.commit().unwrap();
-            }
+    let gate = Arc::new((Mutex::new((false /*reader parked*/, false /*release*/)), Condvar::new()));
+    let g2 = gate.clone();
+    redb::verif_sched::set_pause_hook(Some(Arc::new(move |p| {
+        if p == "read.registered" && IS_READER.with(|r| r.get()) {
+            let (m, cv) = &*g2;
+            let mut g = m.lock().unwrap();
+            g.0 = true; cv.notify_all();
+            while !g.1 { g = cv.wait(g).unwrap(); }
         }
-        drop(db);
-        let l1 = b.0.lock().unwrap().len();
-        if reopen_twice { let db = redb::Database::builder().create_with_backend(b.clone()).unwrap(); drop(db); }
-        let l2 = b.0.lock().unwrap().len();
-        let mut db = redb3::Database::builder().create_with_backend(b.clone()).unwrap();
-        let r = db.check_integrity();
-        println!("n={n} del={del} reopen={reopen_twice}: len {l1} -> {l2} pages {}: old check_integrity {:?}", l2/4096, r);
-    }
+    })));
+    let mut b = Builder::new();
+    b.verif_set_page_size(512); b.verif_set_region_size(65536); b.set_cache_size(0);
+    let db = Arc::new(b.create_with_backend(backends::InMemoryBackend::new()).unwrap());
+    let write = |k: u64, nd: bool| {
+        let mut w = db.begin_write().unwrap();
+        if nd { w.set_durability(Durability::None).unwrap(); }
+        { let mut t = w.open_table(T).unwrap(); for i in 0..40u64 { t.insert(i, vec![(k as u8).wrapping_add(i as u8); 300].as_slice()).unwrap(); } }
+        w.commit().unwrap();
+    };
+    write(1, false); // durable D
+    let db2 = db.clone();
+    let corrupted = Arc::new(AtomicBool::new(false));
+    let c2 = corrupted.clone();
+    let g3 = gate.clone();
+    let reader = std::thread::spawn(move || {
+        IS_READER.with(|r| r.set(true));
+        let rt = db2.begin_read().unwrap();     // parks between registration and root read
+        let t = rt.open_table(T).unwrap();
+        let snap: Vec<Vec<u8>> = t.iter().unwrap().map(|e| e.unwrap().1.value().to_vec()).collect();
+        // tell main to continue with one more non-durable commit, then re-read
+        { let (m, cv) = &*g3; let mut g = m.lock().unwrap(); g.0 = false; g.1 = false; cv.notify_all(); while !g.1 { g = cv.wait(g).unwrap(); } }
+        let r = std::panic::catch_unwind(std::panic::AssertUnwindSafe(|| {
+            let again: Vec<Vec<u8>> = t.iter().unwrap().map(|e| e.unwrap().1.value().to_vec()).collect();
+            again
+        }));
+        match r {
+            Ok(again) => { if again != snap { c2.store(true, Ordering::SeqCst); println!("reader: snapshot CHANGED under a live read transaction ({} rows before, {} after; first row byte {} -> {})", snap.len(), again.len(), snap[0][0], again.get(0).map(|v| v[0]).unwrap_or(0)); } else { println!("reader: snapshot stable, first byte {}", snap[0][0]); } }
+            Err(_) => { c2.store(true, Ordering::SeqCst); println!("reader: PANIC while re-reading its snapshot"); }
+        }
+    });
+    { let (m, cv) = &*gate; let mut g = m.lock().unwrap(); while !g.0 { g = cv.wait(g).unwrap(); } }
+    // reader is registered (at the durable commit) but has not read the root yet
+    write(2, true); write(3, true);
+    { let (m, cv) = &*gate; let mut g = m.lock().unwrap(); g.1 = true; cv.notify_all(); while g.1 { g = cv.wait(g).unwrap(); } }
+    // reader has now read the root of commit 3; two more non-durable commits reclaim and reuse pages
+    let r = std::panic::catch_unwind(std::panic::AssertUnwindSafe(|| { write(4, true); write(5, true); write(6, true); }));
+    if r.is_err() { println!("writer: PANIC (debug assertion: freeing a page a reader still references)"); }
+    { let (m, cv) = &*gate; let mut g = m.lock().unwrap(); g.1 = true; cv.notify_all(); }
+    reader.join().unwrap();
+    println!("corrupted={}", corrupted.load(Ordering::SeqCst));
 }
